@@ -36,7 +36,7 @@ def finding_key(req, obs, detail):
     if re.search(r"\b[19]5ae43fd\b", d) and re.search(r"\b15ae43fe\b", d) and "07038531" in d and \
             (d.startswith("FAIL:emit Float") or d.startswith("FAIL:fmt Float")):
         return "formatter.rs format_literal: single 0x15ae43fd printed with f32 Display digits (7.038531e-26) reads back as 0x15ae43fe"
-    if d.startswith("FAIL:panic formatter/src/formatter.rs:") and d.endswith(": invalid msl"):
+    if re.match(r"FAIL:panic (\S*/)?formatter/src/formatter\.rs:\d+: invalid msl$", d):
         return "panic formatter/src/formatter.rs fn write_infinity_f64: invalid msl"
     if "as_ptr_range" in d:
         # which `end_of_stream()` produced the `&[]`: find the start of the failing token
